@@ -149,7 +149,12 @@ def register_flatten(R):
     def ens(c):
         b = c.ref('self')
         l0, l1 = stages(c.pre, b), stages(c.post, b)
-        return [('C02+C03+C14.one-stage-left:the-left-fold-of-all-stages', z3.And(l1.len == 1, l1.get(0) == FoldV(l0.len)))]
+        # C08 "new paths count against the config built so far, which is EMPTY for the first stage": however many stages there are (one
+        # included), a normal return is preceded by the new-path check of the first stage
+        checked = [e for e in c.events if e[0] == 'require-new']
+        first_checked = z3.Or([e[2]['args'][0].t == l0.get(0) for e in checked]) if checked else z3.BoolVal(False)
+        return [('C02+C03+C14.one-stage-left:the-left-fold-of-all-stages', z3.And(l1.len == 1, l1.get(0) == FoldV(l0.len))),
+                ('C08.first-stage-is-checked-against-the-empty-config-before-any-normal-return', first_checked)]
 
     def gate_merge(sc, kw):
         # the first-stage new-path check has returned before anything is merged
@@ -169,6 +174,48 @@ def register_flatten(R):
                    note='left fold: after the loop the single remaining stage is merge(...merge(merge(s0, s1), s2)..., sn) (C02/C03 for any number of stages follow from the one-level merge contracts by induction over this fold); C08: the first-stage new-path check precedes every merge'))
 
 
+def register_stream_premerge(R):
+    """StreamNode.ayns.on_premerge_impl (C06 'key: !include [..] equals placing the MERGED content of those files under key'): the stages of
+    the include are flattened first, and what is pre-merged (and kept as the stream's only item) is the stage the sub-builder holds
+    AFTER flattening - the merge of two stages may return the other node, so a reference taken before is not the merged content."""
+    ALLF = ('$llen', '$litem', '$mlen', '$mkeyat', '$mpos', '$mval', 'stages', '_children', '_delete', '_priority', '_allow_new', '_safe', '_implicit_delete',
+            '_implicit_allow_new', '_implicit_safe', '_default_safe', '_metadata', '_pyyaml_node', '$pset', '_func')
+    anyall = lambda c: [(f, 'all') for f in ALLF]
+    PreRes = z3.Function('PremergeResult', Val, Val)
+    R.add(Contract(B + 'Builder.flatten', [P.node('self', 'Builder')], name='abstract', assume_only=True, modifies=anyall,
+                   ensures=[('one-stage-left', lambda c: z3.And(is_ref(c.post.get('stages', c.ref('self'))), c.post.l(r_of(c.post.get('stages', c.ref('self')))).len == 1))],
+                   raises=[Raises('MergeError'), Raises('PremergeError'), Raises('ValueError')], props=('C06',), opts={'callee': False},
+                   note='left fold of the stages (proved as Builder.flatten#default): afterwards the stage list holds the single merged stage, which need not be the object that was first before'))
+    R.add(Contract(N + 'ConfigNode.ayns.on_premerge', [P.node('self', 'ConfigNode'), P.path('path'), P.val('into', 'any')], name='abstract-named', assume_only=True, modifies=anyall,
+                   ensures=[('result', lambda c: c.rt == PreRes(c['self']))], result=P.val('result', 'any'), raises=[Raises('PremergeError')], props=('C06',), opts={'callee': False},
+                   note='pre-merge hook of the flattened stage'))
+    for nm in ('clear', 'append'):
+        R.add(Contract(L + 'ConfigList.' + nm, [P.node('self', 'ConfigList')] + ([P.val('value', 'any')] if nm == 'append' else []), name='abstract', assume_only=True, modifies=anyall,
+                       props=('C06',), opts={'callee': False}, note='container mutators of the stream node (proved for C17)'))
+
+    def stage0(h, s):
+        b = r_of(h.get('builder', s))
+        return h.l(r_of(h.get('stages', b))).get(0)
+
+    def gate_pre(sc, kw):
+        return kw['args'][0].t == stage0(kw['heap'], sc.ref('self'))
+
+    def gate_app(sc, kw):
+        return z3.And(kw['args'][0].t == sc['self'], kw['args'][1].t == stage0(kw['heap'], sc.ref('self')))
+
+    TAG = 'C06.what-is-pre-merged-and-kept-is-the-stage-held-after-flattening'
+    R.add(Contract(ST + 'StreamNode.ayns.on_premerge_impl', [P.node('self', 'StreamNode', exact=True), P.path('path'), P.val('into', 'any')],
+                   requires=lambda c: [('has-a-builder', z3.And(is_ref(c.pre.get('builder', c.ref('self'))), r_of(c.pre.get('builder', c.ref('self'))) > 0,
+                                                                c.eng.isinstance_term(c.pre.cls(r_of(c.pre.get('builder', c.ref('self')))), 'Builder')))],
+                   modifies=anyall, raises=[Raises('MergeError'), Raises('PremergeError'), Raises('ValueError')], result=P.val('result', 'any'), props=('C06',),
+                   opts={'use': {B + 'Builder.flatten': 'abstract', N + 'ConfigNode.ayns.on_premerge': 'abstract-named', L + 'ConfigList.clear': 'abstract', L + 'ConfigList.append': 'abstract'},
+                         'watch': {N + 'ConfigNode.ayns.on_premerge': TAG + ':premerge', L + 'ConfigList.append': TAG + ':keep'},
+                         'gates': {TAG + ':premerge': gate_pre, TAG + ':keep': gate_app},
+                         'verify_only': True, 'no_search': True, 'no_frame': True, 'skip_kinds': ('pre', 'safety')},
+                   note='order of flatten / read of the first stage; mutators and the fold are used through abstract contracts (proved elsewhere)'))
+
+
 def _reg_all(R):
     register(R)
     register_flatten(R)
+    register_stream_premerge(R)
